@@ -1029,3 +1029,9 @@ seed("C17", "C17-e", "C17.R9")
 seed("C18", "C18-e", "C18.R3")
 seed("C19", "C19-e", "C19.R2")
 seed("C20", "C20-e", "C20.R9")
+
+
+# D15 (fix: negative position in __setitem__)
+v("C01", "setitem-negative-position-unnormalised", "fire", F,
+  "        if position < 0:\n            position += len(self.coords)\n            if position < 0:\n                raise IndexError(\"Fiber position out of range\")\n",
+  "", "C01.R4")
